@@ -16,8 +16,12 @@ runs a whole attempt undisturbed while nobody holds or attempts must acquire; a 
 its attempts met a holder, never on a free lock; cleanup_lockdir (a clean-up contender, modelled by Lock.stepc; lock
 file modification times run on the scheduler's clock) unlinks only files older than max_lock_time - after such a
 documented override two holders are counted, not reported; every raw write of the compact cache to a bundle happens
-while the bundle lock is held (run_bundle_scope).
+while the bundle lock is held (run_bundle_scope) and so does every creation of a bundle file (two first writers of a new
+bundle, run_bundle_first_writers); injected faults (flock fails with ENOLCK, os.remove of unlock fails with EPERM; schedule
+entries with choice >= 100, modelled by Lock.step_fault): lock() never returns without its flock, a contender that has
+returned from unlock() holds no flock on the file at the lock path.
 """
+import errno
 import glob
 import itertools
 import json
@@ -43,7 +47,8 @@ LEVEL_TEXT = ('Theorems (P_C07.v) over the Gallina transition system of LockFile
               'modification-time reading below clock - max_lock_time), cleanup_override_refuted (the documented take-over of old '
               'locks); with time in the model (tstep/treach: one clock, modification time = last open("w+") / pid write): '
               'cleanup_never_unlinks, cleanup_never_removes_held_file and mutex_timed for remove-on-unlock locks along runs in which '
-              'no process keeps a lock file open longer than max_lock_time, cleanup_needs_timely_refuted.  Mutual exclusion is REFUTED (3 processes, 11 calls) for the same system without the identity check of '
+              'no process keeps a lock file open longer than max_lock_time, cleanup_needs_timely_refuted; with environment faults (runf/stepf): '
+              'mutex_with_faults, semaphore_bounded_with_faults, flock_fault_fails_attempt, remove_fault_releases.  Mutual exclusion is REFUTED (3 processes, 11 calls) for the same system without the identity check of '
               'commit 493c25f.  The model is tied to the code by running real lock users on real files under a scheduler that '
               'serialises their system calls and replaying the observed trace through Lock.step in Coq.')
 LEVEL_NOTE = ('Trusted: Coq kernel, the hand-written model Lock.v, the scheduler harness.  Modelled, not verified: flock(2) '
@@ -174,6 +179,9 @@ class Sched(object):
         self.poll_cause = [0] * self.m    # per contender: attempts of the current poll that met a holder / a removal
         self.cleaner = [None] * self.m    # per clean-up contender: {'expire':, 'm':} of the running cleanup_lockdir call
         self.overridden = False
+        self.fault = False                # the call granted now fails with an environment fault (ENOLCK from flock, EPERM from remove)
+        self.faults = 0
+        self.phase = ['outside'] * self.m  # per contender: outside / locking / inside / unlocking
         self.max_span = 0                 # longest time any contender had a lock file open (from open to close / remove)
         self.override = False             # the age guard of cleanup_lockdir fired: the documented override of old locks
 
@@ -263,12 +271,31 @@ class Sched(object):
         f = self.file_of_fd(tid, fd)
         if flags != (fcntl.LOCK_EX | fcntl.LOCK_NB) or f is None:
             self.weird.append('flock flags %r / unknown descriptor' % (flags,))
+        if self.fault:
+            # fault: the lock service fails with something other than "held by somebody else"; the attempt must fail
+            self.faults += 1
+            entry['res'] = ('flock', None)
+            self.poll_cause[tid] += 1
+            if self.att[tid] is not None:
+                self.att[tid]['failed'] = True
+                self.att[tid]['fault'] = True
+            raise OSError(errno.ENOLCK, 'No locks available')
         try:
             fcntl.flock(fd, flags)
         except (IOError, OSError):
             entry['res'] = ('flock', False)
             if f is not None:
                 holder = self.flock_holder.get(f.ino_id)
+                if holder not in (None, tid) and self.phase[holder] == 'outside':
+                    # the holder has returned from unlock(): it may keep a flock only on a file that it has unlinked
+                    try:
+                        still_named = self.ino_ids.get(os.stat(f.name).st_ino, 777) == f.ino_id
+                    except OSError:
+                        still_named = False
+                    if still_named:
+                        self.oracle_fail.append(('released-lock-still-held',
+                                                 'flock of contender %d refused: contender %d has returned from unlock() but still holds '
+                                                 'the flock of the file at the lock path' % (tid, holder)))
                 if holder is None or holder == tid:
                     self.oracle_fail.append(('attempt-failed-on-free-lock',
                                              'flock of contender %d refused although no other contender holds a flock on that file' % tid))
@@ -331,6 +358,11 @@ class Sched(object):
             return os.remove(path)
         if self.slot_of(path) != 0:
             self.weird.append('remove of %r' % (path,))
+        if self.fault:
+            # fault: the lock file cannot be removed (read-only directory, EPERM); unlock() must release by closing
+            self.faults += 1
+            entry['res'] = ('remove', None)
+            raise OSError(errno.EPERM, 'Operation not permitted')
         try:
             os.remove(path)
         except OSError:
@@ -482,19 +514,24 @@ class Sched(object):
                 if what == 'lock':
                     self.lock_call[tid] = None
                     self.poll_cause[tid] = 0
+                    self.phase[tid] = 'locking'
                     try:
                         lock.lock()
                     except LockTimeout:
+                        self.phase[tid] = 'outside'
                         self.on_timeout(tid)
                         self.event(('timeout',))
                     except Abort:
                         raise
                     except BaseException as ex:  # noqa
+                        self.phase[tid] = 'outside'
                         self.weird.append('lock() of contender %d raised %s: %s' % (tid, type(ex).__name__, str(ex)[:200]))
                         self.event(('raised', type(ex).__name__))
                     else:
+                        self.phase[tid] = 'inside'
                         self.on_acquired(tid, lock)
                 elif what == 'unlock':
+                    self.phase[tid] = 'unlocking'
                     try:
                         lock.unlock()
                     except Abort:
@@ -502,6 +539,7 @@ class Sched(object):
                     except BaseException as ex:  # noqa
                         self.weird.append('unlock() of contender %d raised %s: %s' % (tid, type(ex).__name__, str(ex)[:200]))
                         self.event(('raised', type(ex).__name__))
+                    self.phase[tid] = 'outside'
                 elif what == 'clean':
                     import mapproxy.util.lock as L
                     try:
@@ -541,6 +579,12 @@ class Sched(object):
             self.weird.append('cannot inspect acquired lock: %r' % (ex,))
             k, iid = 99, 777
         self.event(('acquired', k, iid))
+        try:
+            if not lock._lock._fp.locked:
+                self.oracle_fail.append(('inside-without-flock',
+                                         'lock() of contender %d returned although its flock call did not succeed' % tid))
+        except Exception:  # noqa
+            pass
         a = self.att[tid]
         if a is not None and a.get('failed'):
             self.weird.append('lock() returned after a failed attempt without a new one')
@@ -568,7 +612,8 @@ class Sched(object):
 
     def grant(self, pid, dt, choice):
         self.clock += dt
-        self.choice = choice
+        self.fault = choice >= 100
+        self.choice = choice % 100
         for q in range(self.m):
             if self.att[q] is not None:
                 self.max_span = max(self.max_span, self.clock - self.att[q]['t_open'])
@@ -586,7 +631,7 @@ class Sched(object):
         # oracle: an attempt that ran alone on a free lock must not fail
         if a is not None and a.get('failed') and not a.get('reported'):
             a['reported'] = True
-            if a['quiet'] and a['undisturbed']:
+            if a['quiet'] and a['undisturbed'] and not a.get('fault'):
                 self.oracle_fail.append(('free-lock-not-acquired',
                                          'contender %d ran a whole attempt alone while nobody held or attempted the lock and failed' % pid))
 
@@ -612,7 +657,7 @@ class Sched(object):
                 rr += 1
                 if self.finished[pid]:
                     continue
-                self.grant(pid, 1, rr)
+                self.grant(pid, 1, rr % 6)
                 steps += 1
         except Hang as ex:
             hang = str(ex)
@@ -749,7 +794,7 @@ def gen_schedule(rng, m, length):
     for _ in range(length):
         if rng.random() >= sticky:
             pid = rng.randrange(m)
-        sched.append((pid, rng.choice([0, 0, 0, 1, 1, 3]), rng.randrange(0, 6)))
+        sched.append((pid, rng.choice([0, 0, 0, 1, 1, 3]), rng.randrange(0, 6) + (100 if rng.random() < 0.05 else 0)))
     return sched
 
 
@@ -830,6 +875,10 @@ def obs_lit(e):
         op, r = 'ORand %d%%nat' % res[1], 'RUnit'
     elif kind == 'open':
         op, r = 'OOpen', 'ROpen %d%%nat %d%%nat %s' % (res[1], res[2], blit(res[3]))
+    elif kind == 'flock' and res[1] is None:
+        op, r = 'OFlockErr', 'RFlock false'
+    elif kind == 'remove' and res[1] is None:
+        op, r = 'ORemoveErr', 'RRemove false'
     elif kind == 'flock':
         op, r = 'OFlock', 'RFlock %s' % blit(res[1])
     elif kind == 'stat':
@@ -950,6 +999,7 @@ def run(ctx):
             ctx.count('timeouts', sum(1 for e in trace if ('timeout',) in e['events']))
             ctx.count('acquired', sum(1 for e in trace for ev in e['events'] if ev[0] == 'acquired'))
             ctx.count('max-inside=%d' % s.max_inside)
+            ctx.count('injected-faults (flock ENOLCK / remove EPERM)', s.faults)
             ctx.count('cleanup-unlinks', sum(1 for r in results if r == ('unlink', True)))
             if s.overridden:
                 ctx.count('old-lock-taken-over-after-cleanup (documented override, not a failure)')
@@ -1045,12 +1095,32 @@ def run_bundle_scope(ctx):
     def make_tile(coord, fill, size):
         return Tile(coord, ImageSource(io.BytesIO(bytes([fill]) * size), image_opts=ImageOptions(format='image/png')))
 
+    real_write_atomic = C.write_atomic
+    race = {'second': None, 'fired': None}
+
+    def traced_write_atomic(filename, data):
+        # creation of a bundle file = write a temporary file and rename it over the bundle path
+        lock_file = os.path.splitext(filename)[0] + '.lck'
+        inside_lock = held.get(lock_file, 0) > 0
+        log.append(('create', os.path.basename(filename), len(data), inside_lock))
+        second = race['second']
+        if second is not None and not inside_lock and race['fired'] is None:
+            # this writer sits between its exists() check and its rename, outside the lock: let a second writer of the same
+            # bundle run its whole store now
+            race['second'] = None
+            race['fired'] = os.path.basename(filename)
+            second()
+        return real_write_atomic(filename, data)
+
     saved_lock = C.FileLock
     C.FileLock = ScopeLock
     C.open = traced_open
+    C.write_atomic = traced_write_atomic
     base = ctx.tmpdir('bundles')
     reported = False
+    created_reported = set()
     try:
+        run_bundle_first_writers(ctx, C, Tile, make_tile, log, held, race, base)
         for case_no in range(ctx.n(24, 200)):
             version = rng.choice(['v1', 'v2'])
             cache_dir = os.path.join(base, 'c%d' % case_no)
@@ -1098,15 +1168,88 @@ def run_bundle_scope(ctx):
                 ctx.fail('bundle-write-outside-locked-section',
                          'compact %s: a write of %d bytes at offset %d reached %s while its bundle lock was not held (%d of %d '
                          'raw writes outside the locked section)' % (version, e[3], e[2], e[1], len(outside), len(writes)), rep)
+            created_outside = [e for e in log if e[0] == 'create' and not e[3]]
+            if created_outside and ('created', version) not in created_reported:
+                created_reported.add(('created', version))
+                e = created_outside[0]
+                ctx.fail('bundle-created-outside-locked-section,' + version,
+                         'compact %s: %s is created (temporary file renamed over the bundle path) while its bundle lock is not held: '
+                         'a concurrent first writer of the bundle can have its file replaced' % (version, e[1]), rep)
             if writes and nlocks == 0 and not reported:
                 reported = True
                 ctx.fail('bundle-write-outside-locked-section', 'compact %s modified a bundle without taking its lock' % version, rep)
     finally:
         C.FileLock = saved_lock
+        C.write_atomic = real_write_atomic
         try:
             del C.open
         except AttributeError:
             pass
+
+
+def run_bundle_first_writers(ctx, C, Tile, make_tile, log, held, race, base):
+    """Two first writers of one new bundle.  Writer B is stopped where it is about to create the bundle file while it does
+    not hold the bundle lock (if the code has such a point); writer A (own cache object, same directory) then stores its
+    tile completely; B goes on.  Afterwards both tiles must be readable with their own bytes."""
+    rng = ctx.rng
+    reported = set()
+    for case_no in range(ctx.n(8, 60)):
+        version = ['v1', 'v2'][case_no % 2]
+        cls = C.CompactCacheV1 if version == 'v1' else C.CompactCacheV2
+        cache_dir = os.path.join(base, 'w%d' % case_no)
+        level = rng.choice([0, 3, 12])
+        lim = min(128, 2 ** level)
+        ca = (rng.randrange(lim), rng.randrange(lim), level)
+        cb = (rng.randrange(lim), rng.randrange(lim), level)
+        if ca == cb:
+            cb = ((ca[0] + 1) % max(lim, 2), ca[1], level) if lim > 1 else None
+        if cb is None:
+            continue
+        sa, sb = rng.choice([1, 500, 9000]), rng.choice([1, 700, 70000])
+        b_op = rng.choice(['store', 'store', 'remove'])
+        del log[:]
+        held.clear()
+        raised = None
+        try:
+            A, B = cls(cache_dir), cls(cache_dir)
+            race['fired'] = None
+            race['second'] = lambda: A.store_tile(make_tile(ca, 65, sa))
+            if b_op == 'store':
+                B.store_tile(make_tile(cb, 66, sb))
+            else:
+                B.remove_tile(Tile(cb))
+            fired = race['fired']
+            race['second'] = None
+            ok_a = ok_b = True
+            if fired:
+                R = cls(cache_dir)
+                ta = Tile(ca)
+                ok_a = bool(R.load_tile(ta)) and ta.source is not None and ta.source.as_buffer().read() == bytes([65]) * sa
+                if b_op == 'store':
+                    tb = Tile(cb)
+                    ok_b = bool(R.load_tile(tb)) and tb.source is not None and tb.source.as_buffer().read() == bytes([66]) * sb
+        except Exception as ex:  # noqa
+            raised = '%s: %s' % (type(ex).__name__, str(ex)[:200])
+            fired, ok_a, ok_b = race['fired'], True, True
+        finally:
+            race['second'] = None
+        ctx.case(('first-writers', version, ca, cb, sa, sb, b_op, fired), bool(fired),
+                 {'bundle_version': version, 'writer_a': [ca, sa], 'writer_b': [b_op, cb, sb], 'b_stopped_at': fired})
+        ctx.count('origin=bundle-first-writers')
+        ctx.count('first-writers: B stopped outside the lock before creating a bundle file', 1 if fired else 0)
+        rep = {'origin': 'bundle-first-writers', 'bundle_version': version, 'writer_a_stores': [list(ca), sa],
+               'writer_b': [b_op, list(cb), sb],
+               'schedule': 'B: %s until it is about to rename a new %s over the bundle path (lock not held); A: complete store_tile; '
+                           'B: continues' % (b_op, fired)}
+        if raised and 'exc' not in reported:
+            reported.add('exc')
+            ctx.fail('unexpected-exception', 'compact cache %s, two first writers: %s' % (version, raised), rep)
+        if fired and not (ok_a and ok_b) and version not in reported:
+            reported.add(version)
+            ctx.fail('bundle-created-outside-locked-section,' + version,
+                     'compact %s, two first writers of a new bundle: B replaces the bundle file after A stored its tile under the lock; '
+                     'afterwards tile %r of A is %s, tile of B is %s' % (version, ca, 'intact' if ok_a else 'lost or foreign',
+                                                                        'intact' if ok_b else 'lost or foreign'), rep)
 
 
 def count_replaced(trace):
